@@ -267,8 +267,10 @@ func (s *Sched) Run() Verdict {
 			return *s.panicV
 		}
 		if s.OnStep != nil {
+			keep := s.cur
 			s.cur = nil
 			s.OnStep(s)
+			s.cur = keep
 		}
 		var runnable []*Task
 		live := 0
